@@ -158,6 +158,28 @@ func (c06) Gen(r *sim.Rand, tier string, run uint64) *sim.Scenario {
 			ops = append(ops, sim.Op{K: "finalize"})
 		}
 	}
+	if r.Chance(1, 12) && next < 10 {
+		// arbitrarily many references to one label, on both sides of it
+		l := newLabel()
+		k1, k2 := r.Range(8, 30), r.Range(8, 30)
+		jmp := func() sim.Op { return sim.Op{K: "ref", S: "JMP_abs", N: []int64{l}} }
+		for i := 0; i < k1; i++ {
+			if k1-i <= 20 && r.Chance(1, 2) {
+				ops = append(ops, s8ref(l)) // at most 20 refs x 3 bytes away: in range
+			} else {
+				ops = append(ops, jmp())
+			}
+		}
+		ops = append(ops, sim.Op{K: "label", N: []int64{l}})
+		for i := 0; i < k2; i++ {
+			if i < 20 && r.Chance(1, 2) {
+				ops = append(ops, s8ref(l))
+			} else {
+				ops = append(ops, jmp())
+			}
+		}
+		refs = 14 // no more random references: keep the history bounded
+	}
 	// references to earlier labels from far away (likely out of range), jumps anywhere
 	for i := 0; i < r.Intn(3) && next > 0 && refs < 14; i++ {
 		ops = append(ops, ref(int64(r.Intn(int(next)))))
@@ -457,6 +479,7 @@ func c06run(sc *sim.Scenario, env *sim.Env, st *sim.Stats, observe bool) c06resu
 				}
 			}
 		}
+		st.ProbeIf(len(m.Refs) > 16, "more_than_16_references")
 		st.State(sim.HashU64(sim.HashU64(sim.HashU64(uint64(m.Len), uint64(m.Addr)), uint64(len(m.Refs))), uint64(len(m.Labels))))
 	}
 	return res
